@@ -365,7 +365,7 @@ func expectedPool(p Point, mat *material) *x509.CertPool {
 	case p.LoadedCA == "ca2":
 		pool.AddCert(mat.ca2)
 	case p.CAFile == "ca1":
-		pool.AppendCertsFromPEM(mat.ca1PEM)
+		pool.AppendCertsFromPEM(mat.caBundlePEM) // every certificate of the file is a supplied root
 	}
 	return pool
 }
